@@ -1,6 +1,6 @@
 (* C03 — Every mutating query and transaction is atomic across crashes.
    Pinned statements only; proofs live in theories/CrashProofs.v (on top of C01). *)
-From Agdb Require Import Bytes FileWal FileWalProofs TxnNesting CrashProofs.
+From Agdb Require Import Bytes FileWal FileWalProofs TxnNesting CrashProofs CrashGuardProofs.
 Open Scope nat_scope.
 
 (* A query / transaction whose storage-data calls contain no flush except the final one:
@@ -16,6 +16,17 @@ Theorem C03_atomic_single_flush :
     wal r = [] /\ (data r = d0 \/ data r = final_data st body).
 Proof. exact atomic_single_flush. Qed.
 Print Assumptions C03_atomic_single_flush.
+
+(* the same for the recovery WITH the position guard of apply_wal_record (recover_g; None = error):
+   at every crash cut the guarded recovery succeeds with the file before or the file after *)
+Theorem C03_atomic_single_flush_guarded :
+  forall (d0 : bytes) (body : list op) (k j : nat),
+    no_flush body = true -> wp d0 (body ++ [OFlush]) ->
+    let st := {| data := d0; wal := [] |} in
+    exists r, recover_g walrev_fixed (crash st (trace walrev_fixed st (body ++ [OFlush])) k j) = Some r /\
+              wal r = [] /\ (data r = d0 \/ data r = final_data st body).
+Proof. exact atomic_single_flush_g. Qed.
+Print Assumptions C03_atomic_single_flush_guarded.
 
 (* DbImpl::transaction_mut (after the fix: commit) brackets the whole closure — also when it
    fails and is rolled back by the undo commands — in one storage transaction.  Whatever
